@@ -1,6 +1,7 @@
 import Driver.Util
 import Driver.CatsWire
 import SymbolVerif.Model.Cats.Expand
+import SymbolVerif.Proofs.CatsExpand
 namespace Driver.C05
 open SymbolVerif SymbolVerif.Cats Driver Driver.CatsWire
 
@@ -42,6 +43,9 @@ def handle : Handler
   | "comment", [text] => do
     let s ← strArg text
     pure (strOut (Comment.normalise s))
+  | "dbu", toks => do
+    let S ← parseSchema (" ".intercalate toks)
+    pure (toString (decide (DeclaredBeforeUse S)))
   | "expand", toks => do
     let S ← parseSchema (" ".intercalate toks)
     pure (expandReport S)
